@@ -63,6 +63,12 @@ theorem ndb_wire (s : ESt) (m : Bytes) :
   rw [ndb_append, ndb_encode, encode_sim]
   simpa using ndb_term _
 
+/-! ### the marker, read in any state, ends the phase -/
+
+/-- whatever the receiver has read so far, `CRLF . CRLF` puts it in `done` -/
+theorem term_done_any (s : DSt) : (decode s terminator).1 = .done := by
+  cases s <;> decide
+
 /-- if `done` is not entered before the end of `xs`, no proper prefix of `xs` ends in `done` -/
 theorem ndb_prefix (s : DSt) (xs p : Bytes) (h : notDoneBefore s xs = true)
     (hp : p <+: xs) (hne : p ≠ xs) : (decode s p).1 ≠ .done := by
